@@ -2,7 +2,7 @@
 From Coq Require Import String List.
 Import ListNotations.
 From Gokrb5.model Require Import Diag.
-From Gokrb5.proofs Require Import DiagProofs.
+From Gokrb5.proofs Require Import DiagProofs DiagTight.
 From Gokrb5.gen Require Import DiagTypes.
 Open Scope string_scope.
 
@@ -15,6 +15,14 @@ Theorem generated_roots_noninterfering :
   forall t a b, In t gen_json_roots -> same_public t a b -> render t a = render t b.
 Proof.
   intros t a b Hin Hs. apply render_noninterference; [|exact Hs].
+  pose proof generated_roots_have_no_visible_secret as H. rewrite forallb_forall in H. auto.
+Qed.
+
+(* and emits nothing but public tokens of the state, whatever the state (DiagTight.render_only_public) *)
+Theorem generated_roots_emit_public_only :
+  forall t v x, In t gen_json_roots -> In x (render t v) -> In x (pub_tokens v).
+Proof.
+  intros t v x Hin. apply render_only_public.
   pose proof generated_roots_have_no_visible_secret as H. rewrite forallb_forall in H. auto.
 Qed.
 
